@@ -52,6 +52,8 @@ pub struct Mon {
     /// some command was executed without a trap round right before it
     pub unannounced_command: bool,
     pub commands: nat,
+    /// the runs of the EXIT trap action: for which condition, which command
+    pub exit_runs: Seq<(Condition, int)>,
     /// the trap action run last ended with a divert (break / return / exit / interrupt)
     pub last_trap_diverted: bool,
     /// a command was executed although the trap action run right before it had diverted
@@ -118,3 +120,21 @@ impl<S> Env<S> {
     #[verifier::external_body]
     pub fn update_all_subshell_statuses(&mut self) ensures final(self).mon@ == old(self).mon@ { unimplemented!() }
 }
+
+// ---- the EXIT trap (yash-semantics/src/trap/exit.rs) -------------------------------------------------------------
+/// `env.traps.get_state(Condition::Exit).0`: the current state of the EXIT condition, if any (opaque; same table invariant)
+#[verifier::external_body]
+pub fn verif_get_exit_state<'a, S>(env: &'a Env<S>) -> (r: Option<&'a TrapState>)
+    ensures r == exit_state(env), r matches Some(st) ==> (st.action is Command ==> st.origin is User)
+{ unimplemented!() }
+pub uninterp spec fn exit_state<S>(env: &Env<S>) -> Option<&TrapState>;
+impl<S> Env<S> {
+    /// Env::apply_result (unit errexit): moves the exit status of a divert into $?; no effect on the traps
+    #[verifier::external_body]
+    pub fn apply_result(&mut self, result: Result) ensures final(self).mon@ == old(self).mon@ { unimplemented!() }
+}
+/// running the EXIT trap: observed through a counter of its own (run_trap above is about signal traps)
+#[verifier::external_body]
+pub fn run_exit_action<S>(env: &mut Env<S>, cond: Condition, code: Rc<Code>, origin: Location) -> (r: Result)
+    ensures final(env).mon@ == (Mon { exit_runs: old(env).mon@.exit_runs.push((cond, code.verif_id)), ..old(env).mon@ })
+{ unimplemented!() }
